@@ -15,6 +15,7 @@ func init() {
 	replayers["C06"] = replayC06
 	replayers["C16"] = replayC16
 	replayers["C01"] = replayClean
+	replayers["C15"] = replayC15
 }
 
 // ---------------------------------------------------------------------------
@@ -430,6 +431,9 @@ func TestVerifReplayC20(t *testing.T) {
 // chunks / pointer-sized first chunk; file size smaller / equal / larger).
 
 func replayClean(w *World, ob *Obligation, vc *VC) (bool, string) {
+	if strings.Contains(ob.Func, "processFiles") {
+		return replayMergeDriver(w)
+	}
 	if !(strings.Contains(ob.Func, "copyToTemp") || strings.Contains(ob.Func, "DecodeFrom")) {
 		return false, "no replay template for this function\n"
 	}
@@ -761,4 +765,161 @@ func smtUnescape(s string) string {
 		b.WriteByte(s[i])
 	}
 	return b.String()
+}
+
+// ---------------------------------------------------------------------------
+// C15, the retry settings of a manifest (newConcreteManifest postconditions):
+// the value the model gives lfs.transfer.maxretrydelay / maxretries is put
+// into a real Git environment and the real manifest is asked what it uses.
+
+func replayC15(w *World, ob *Obligation, vc *VC) (bool, string) {
+	if !strings.Contains(ob.Name, "newConcreteManifest#post") {
+		return false, "no replay template for this obligation\n"
+	}
+	// the model's configured values, when the solver gave one
+	param := ""
+	for _, d := range vc.decls {
+		if strings.HasPrefix(d, "(declare-const p.apiClient!") {
+			param = strings.Fields(d)[1]
+		}
+	}
+	cand := map[string][]int64{"lfs.transfer.maxretrydelay": nil, "lfs.transfer.maxretries": nil}
+	var note strings.Builder
+	if param != "" {
+		for key, def := range map[string]string{"lfs.transfer.maxretrydelay": "(- 1)", "lfs.transfer.maxretries": "0"} {
+			lit, ok := vc.strlits[key]
+			if !ok {
+				continue
+			}
+			t := fmt.Sprintf("(env_int (client_gitenv %s) %s %s)", param, lit, def)
+			if vals, err := w.db.evalModel(vc, ob, []string{t}); err == nil {
+				if n, ok := modelInt(vals[t]); ok && n > -1000000 && n < 1000000 {
+					cand[key] = append(cand[key], n)
+					fmt.Fprintf(&note, "model: %s = %d\n", key, n)
+				}
+			}
+		}
+	}
+	if len(cand["lfs.transfer.maxretrydelay"])+len(cand["lfs.transfer.maxretries"]) == 0 {
+		// no model: the boundary values of the documented ranges
+		cand["lfs.transfer.maxretrydelay"] = []int64{0, 1, 2}
+		cand["lfs.transfer.maxretries"] = []int64{1, 2}
+		note.WriteString("no model value available: trying the boundary values of the documented ranges\n")
+	}
+	var cases strings.Builder
+	for _, key := range []string{"lfs.transfer.maxretrydelay", "lfs.transfer.maxretries"} {
+		for _, n := range cand[key] {
+			fmt.Fprintf(&cases, "\t\t{%q, %d},\n", key, n)
+		}
+	}
+	test := `package tq
+
+import (
+	"strconv"
+	"testing"
+
+	"github.com/git-lfs/git-lfs/v3/lfsapi"
+	"github.com/git-lfs/git-lfs/v3/lfshttp"
+)
+
+func TestVerifReplayC15(t *testing.T) {
+	for _, c := range []struct {
+		key string
+		val int
+	}{
+` + cases.String() + `	} {
+		cli, err := lfsapi.NewClient(lfshttp.NewContext(nil, nil, map[string]string{c.key: strconv.Itoa(c.val)}))
+		if err != nil {
+			t.Fatal(err)
+		}
+		m := newConcreteManifest(nil, cli, "download", "origin")
+		if m == nil {
+			t.Fatal("no manifest")
+		}
+		switch c.key {
+		case "lfs.transfer.maxretrydelay":
+			want := c.val
+			if c.val < 0 {
+				want = 10
+			}
+			if m.maxRetryDelay != want {
+				t.Errorf("REPRODUCED: %s=%d configured, the manifest works with a maximum retry delay of %d s (want %d)", c.key, c.val, m.maxRetryDelay, want)
+			}
+		case "lfs.transfer.maxretries":
+			want := c.val
+			if c.val < 1 {
+				want = 8
+			}
+			if m.maxRetries != want {
+				t.Errorf("REPRODUCED: %s=%d configured, the manifest works with %d retries (want %d)", c.key, c.val, m.maxRetries, want)
+			}
+		}
+	}
+}
+`
+	out, passed, err := runOverlayTest(w.repoDir, "tq", "zz_verif_replay_test.go", test, "TestVerifReplayC15")
+	if err != nil {
+		return false, note.String() + "replay could not run: " + err.Error() + "\n"
+	}
+	return !passed && strings.Contains(out, "REPRODUCED"), note.String() + trimOut(out)
+}
+
+// C01, merge driver: the counterexample is "the output file holds something
+// when clean starts to write".  The replay runs the real processFiles with
+// an output file that holds a previous (longer) pointer - the normal call,
+// --output %A - and a merge program that produces a short text.
+
+func replayMergeDriver(w *World) (bool, string) {
+	test := `package commands
+
+import (
+	"crypto/sha256"
+	"encoding/hex"
+	"fmt"
+	"os"
+	"os/exec"
+	"path/filepath"
+	"strings"
+	"testing"
+
+	"github.com/git-lfs/git-lfs/v3/config"
+)
+
+func TestVerifReplayC01Merge(t *testing.T) {
+	dir := t.TempDir()
+	if out, err := exec.Command("git", "init", "-q", dir).CombinedOutput(); err != nil {
+		t.Fatalf("git init: %v %s", err, out)
+	}
+	if err := os.Chdir(dir); err != nil {
+		t.Fatal(err)
+	}
+	cfg = config.NewIn(dir, filepath.Join(dir, ".git"))
+	outFile := filepath.Join(dir, "current.txt")
+	prev := "version https://git-lfs.github.com/spec/v1\noid sha256:" + strings.Repeat("a", 64) + "\nsize 1000000\n"
+	if err := os.WriteFile(outFile, []byte(prev), 0600); err != nil {
+		t.Fatal(err)
+	}
+	specs := map[string]string{"L": "12"}
+	for _, id := range []string{"A", "O", "B", "D"} {
+		specs[id] = filepath.Join(dir, "tmp-"+id)
+		os.WriteFile(specs[id], nil, 0600)
+	}
+	merged := "merged text\n"
+	mergeDriverProgram = "printf 'merged text\\n' >%D"
+	if _, err := processFiles(specs, mergeDriverProgram, outFile); err != nil {
+		t.Fatalf("processFiles: %v", err)
+	}
+	got, _ := os.ReadFile(outFile)
+	sum := sha256.Sum256([]byte(merged))
+	want := fmt.Sprintf("version https://git-lfs.github.com/spec/v1\noid sha256:%s\nsize %d\n", hex.EncodeToString(sum[:]), len(merged))
+	if string(got) != want {
+		t.Errorf("REPRODUCED: the output file held a previous pointer of %d bytes; after the merge driver it holds %q, want exactly the new pointer %q", len(prev), got, want)
+	}
+}
+`
+	out, passed, err := runOverlayTest(w.repoDir, "commands", "zz_verif_replay_test.go", test, "TestVerifReplayC01Merge")
+	if err != nil {
+		return false, "replay could not run: " + err.Error() + "\n"
+	}
+	return !passed && strings.Contains(out, "REPRODUCED"), trimOut(out)
 }
